@@ -11,7 +11,7 @@ os.makedirs(sv+"/evidence",exist_ok=True); shutil.copy("/verif/known_findings.js
 try:
     for mp in sorted(glob.glob("/verif/seeded/*/meta.json")):
         meta = json.load(open(mp))
-        if meta.get("round") != 3: continue
+        if meta.get("round") not in (3, 4): continue
         sid = os.path.basename(os.path.dirname(mp))
         subprocess.run(["git","-C",wt,"checkout","-q","--","."]); subprocess.run(["git","-C",wt,"clean","-fdq"])
         if subprocess.run(["git","-C",wt,"apply",os.path.dirname(mp)+"/patch.diff"]).returncode != 0:
